@@ -959,6 +959,8 @@ class Executor:
             return [self.res(st, StubV("const." + attr, v))]
         if isinstance(v, (SInt, SReal)):
             return [self.res(st, StubV("num." + attr, v))]
+        if isinstance(v, StubV) and v.name in ("sys.stderr", "sys.stdout"):
+            return [self.res(st, StubV("opaque.stream." + attr, v))]
         raise Unsupported("attribute %s of %r" % (attr, v))
 
     def mod_attr(self, st, m, attr):
